@@ -161,28 +161,36 @@ theorem C13_cycle_reported (db : Db) (hns : NoUnsetup db) (top : Prod) (hsv : Si
     getDependentProducts db db.fuel top true true = .cycle ∧
       ∃ out, getDependentProducts db db.fuel top true false = .ok out := by
   constructor
-  · rcases getDependentProducts_total db hns top true true with ⟨out, h⟩ | ⟨_, h⟩
+  · rcases getDependentProducts_total db top true true with ⟨out, h⟩ | ⟨_, h⟩
     · exact absurd (C13_cycle_reported_partial db hns _ top hsv out h a b ha hb hab hba) hne
     · exact h
-  · rcases getDependentProducts_total db hns top true false with h | ⟨h, _⟩
+  · rcases getDependentProducts_total db top true false with h | ⟨h, _⟩
     · exact h
     · exact absurd h (by simp)
 
 /-! ## totality -/
 
-/-- **The listing never raises** (repaired tree; D18 was the `TypeError`): on every database without unsetup
-lines, for every root and every mode, the outcome is a listing — or, only when `checkCycles` is set, the cycle
-report.  No other error, no non-termination, also with two versions of a product and unresolved names. -/
-theorem C13_topological_total (db : Db) (hns : NoUnsetup db) (top : Prod) (topological cc : Bool) :
+/-- **The listing never raises** (repaired tree; D18 was the `TypeError`, D32 the `RecursionError`): on **every**
+database — unsetup lines inside dependency cycles and missing table files included — for every root and every mode,
+the outcome is a listing — or, only when `checkCycles` is set, the cycle report.  No other error, no
+non-termination, also with two versions of a product and unresolved names. -/
+theorem C13_topological_total (db : Db) (top : Prod) (topological cc : Bool) :
     (∃ out, getDependentProducts db db.fuel top topological cc = .ok out) ∨
       (cc = true ∧ getDependentProducts db db.fuel top topological cc = .cycle) :=
-  getDependentProducts_total db hns top topological cc
+  getDependentProducts_total db top topological cc
 
-/-- **`uses` never raises** (repaired tree; D2 was the `TypeError`): the index is built for every database
-without unsetup lines, and `users` is a total function of it — "the query answers without error even when a
+/-- **`Table.dependencies` returns on every database** (tree with the D32 repair): recursive or not, with or
+without the required versions of a second pass, whatever the tables say, the walk completes within the driver's
+fuel — the measure is (products without an unsetup listing in progress, products not yet opened). -/
+theorem C13_dependencies_total (db : Db) (req : Required) (top : Prod) (recursive : Bool) (depth : Nat) :
+    ∃ out st, depsOf db db.fuel req top recursive depth St.empty = some (out, st) :=
+  depsOf_total db req top recursive depth
+
+/-- **`uses` never raises** (repaired tree; D2 was the `TypeError`, D32 the `RecursionError`): the index is built
+for every database, and `users` is a total function of it — "the query answers without error even when a
 product depends on two versions of another". -/
-theorem C13_uses_total (db : Db) (hns : NoUnsetup db) : ∃ sb, usesInfo db db.fuel = .ok sb :=
-  usesInfo_total db hns
+theorem C13_uses_total (db : Db) : ∃ sb, usesInfo db db.fuel = .ok sb :=
+  usesInfo_total db
 
 /-! ## `uses` is the inverse of the listings -/
 
@@ -211,7 +219,7 @@ theorem C13_uses_is_reach (db : Db) (hns : NoUnsetup db) (sb : SetupBy) (h : use
     exact ⟨this.1, this.2, h3, h4⟩
   · rintro ⟨hq, ⟨d, hd, h1, h2⟩, v, hv, hne, h3, h4⟩
     refine ⟨hq, d, hd, h1, h2, ?_⟩
-    rcases getDependentProducts_total db hns ⟨Y, some w, true⟩ true false with ⟨l, hl⟩ | ⟨hcc, _⟩
+    rcases getDependentProducts_total db ⟨Y, some w, true⟩ true false with ⟨l, hl⟩ | ⟨hcc, _⟩
     · refine ⟨l, hl, ?_⟩
       have := ((C13_topological_listing db hns _ _ _ l hl).2 v).mpr ⟨hv, hne⟩
       obtain ⟨e, he, rfl⟩ := List.mem_map.mp this
@@ -298,6 +306,23 @@ def d2 : Db :=
               ⟨s' "a", s' "1", [req' "e" (some "1"), opt' "c"], false⟩]
     current := [(s' "e", s' "2"), (s' "c", s' "1"), (s' "a", s' "1")] }
 end PinnedExamples
+
+/-- corpus/C13/d32_unsetup_in_cycle.json: `a 1 ↔ b 1`, and `b`'s table unsets `a` -/
+def d32 : Db :=
+  { decls := [⟨s' "a", s' "1", [req' "b"], false⟩,
+              ⟨s' "b", s' "1", [req' "a", ⟨true, false, s' "a", none, false, false⟩], false⟩]
+    current := [(s' "a", s' "1"), (s' "b", s' "1")] }
+
+set_option maxRecDepth 8192 in
+/-- **Pinned tree, D32**: `C13_topological_total` / `C13_dependencies_total` were false before the re-entrance
+guard — on this two-product database (an unsetup line inside the cycle `a ↔ b`) the pinned walk exhausts the
+driver's fuel (the code: `RecursionError`; every pass over `b`'s table starts a fresh listing of `a` that reaches
+`b`'s table again), the repaired walk returns `[b]`. -/
+theorem C13_unsetup_cycle_pinned_witness :
+    depsOfPinned d32 d32.fuel [] ⟨Str.ofString "a", some (Str.ofString "1"), true⟩ true 1 St.empty = none ∧
+    depsOfPinned d32 (4 * d32.fuel) [] ⟨Str.ofString "a", some (Str.ofString "1"), true⟩ true 1 St.empty = none ∧
+    ∃ out, getDependentProducts d32 d32.fuel ⟨Str.ofString "a", some (Str.ofString "1"), true⟩ true false = .ok out :=
+  ⟨by decide, by decide, _, rfl⟩
 
 /-- **Pinned tree, D18**: `C13_topological_total` was false before the repair of `Product.__lt__` — on this
 database (no unsetup lines) the layer that `topologicalSort` sorts for the root `a 1` holds the placeholders
